@@ -119,6 +119,7 @@ def run_case(case, st):
     elif k == "link":
         which, target, state = case[1], case[2], case[3]
         setattr(p, which, target)
+        p.link_esrch = (which,) if state == "esrch" else ()
         if state == "denied":
             p.denied.add(which)
         if state == "gone":
@@ -235,7 +236,7 @@ def build_cases(thorough):
     cmds = [b"/bin/x\0-a\0", b"x\0", b"/bin/noexec\0", b"/bin/dir\0", b"", b"/bin/missing\0", b"/bin/x -a"]
     for which in ("exe", "cwd"):
         for t in targets:
-            for state in ("ok", "denied", "gone"):
+            for state in ("ok", "denied", "gone") + (("esrch",) if t is None else ()):
                 for c in (cmds if which == "exe" else cmds[:1]):
                     cases.append(("link", which, t, state, c))
     longs = [b"a" * 15, b"gnome-keyring-d", b"a" * 14, "é".encode() * 7 + b"x", b"a b c d e f g h"]
